@@ -10,6 +10,7 @@ import GuppyVerif.Util.Sexp
   (getitem <lin> (<cell>…) i) | (setitem <lin> (<cell>…) i v)
   (next <lin> (<cell>…) i)      -> ArrayIter.__next__
   (drain <lin> (<cell>…) i fuel)
+  (fnext (e…) i)                -> FrozenarrayIter.__next__
   (comp n (e…))                 -> the comprehension loop on the generated elements
   (emit comploop n) | (comploop n (<cell>…) fuel)  -> the whole comprehension loop structure / its run (element expr = +1000)
   <lin> = 0 | 1
@@ -167,6 +168,12 @@ def handleSexp : Sexp → Option String
     some (reply (fun
       | none => "fuel"
       | some es => "(" ++ " ".intercalate (es.map toString) ++ ")") r)
+  | .list [.atom "fnext", .list es, .atom i] => do
+    let es ← es.mapM Sexp.asInt?
+    let r := fnext (α := Int) ⟨es, ← i.toInt?⟩
+    some (reply (fun
+      | none => "none"
+      | some (v, st) => s!"some {v} {st.i}") r)
   | .list [.atom "comp", .atom n, .list es] => do
     let es ← es.mapM Sexp.asInt?
     let r := es.foldlM compStep (compInit (α := Int) (← n.toNat?))
